@@ -1,5 +1,7 @@
 import MV.Lemmas.ECSStep
+import MV.Lemmas.ECSHist
 import MV.Lemmas.ECSSpec
+import MV.Lemmas.ECSWords
 /-!
 # C14 — ECS entities are generation-safe; queries return exactly the living matches
 
@@ -70,28 +72,6 @@ theorem C14_living_step (t : MV.Spec.ECS.St) (op : Op) (i : Nat) (hi : i < t.n) 
       (t.isLiving i && !(MV.Lemmas.ECSSpec.kills op i && (MV.Spec.ECS.step t op).2 != .badOp)) :=
   MV.Lemmas.ECSSpec.step_living t op i hi
 
-theorem step_hs_prefix (s : St) (op : Op) : ∃ l, (step s op).1.hs = s.hs ++ l := by
-  cases op <;> simp only [step] <;> (try split) <;> (try split) <;>
-    first
-    | exact ⟨_, rfl⟩
-    | exact ⟨[], (List.append_nil _).symm⟩
-
-theorem exec_hs_prefix (ops : List Op) : ∀ s : St, ∃ l, (exec s ops).hs = s.hs ++ l := by
-  induction ops with
-  | nil => intro s; exact ⟨[], by simp [exec]⟩
-  | cons op ops ih =>
-    intro s
-    obtain ⟨l1, h1⟩ := step_hs_prefix s op
-    obtain ⟨l2, h2⟩ := ih (step s op).1
-    exact ⟨l1 ++ l2, by show (exec (step s op).1 ops).hs = _; rw [h2, h1, List.append_assoc]⟩
-
-theorem exec_append (s : St) (ops ops' : List Op) : exec s (ops ++ ops') = exec (exec s ops) ops' := by
-  simp [exec, List.foldl_append]
-
-theorem spec_exec_append (t : MV.Spec.ECS.St) (ops ops' : List Op) :
-    MV.Spec.ECS.exec t (ops ++ ops') = MV.Spec.ECS.exec (MV.Spec.ECS.exec t ops) ops' := by
-  simp [MV.Spec.ECS.exec, List.foldl_append]
-
 /-- **Never alive again**: once a handle is reported dead it is reported dead after every
 continuation of the history — also after its slot has been reused by new entities. -/
 theorem C14_never_alive_again (ops ops' : List Op) (i : Nat) (hi : i < (exec St.new ops).hs.length)
@@ -112,6 +92,19 @@ theorem C14_never_alive_again (ops ops' : List Op) (i : Nat) (hi : i < (exec St.
     show nth z (exec (exec St.new ops) ops').hs i = nth z (exec St.new ops).hs i
     rw [hl, nth_append_left z _ _ i hi]
   rw [← hsame]; exact this
+
+/-- **The handle judge accepts the model**: in every history, the handles an operation hands out are
+`fresh` — pairwise distinct and different from every handle handed out before (this is the `Bool`
+predicate the suite `ecs-judge` evaluates on the handles the *implementation* returns). -/
+theorem C14_spawn_fresh (ops : List Op) (op : Op) :
+    ∃ l, (step (exec St.new ops) op).1.hs = (exec St.new ops).hs ++ l ∧
+      MV.Spec.ECS.fresh (exec St.new ops).hs l = true := by
+  obtain ⟨l, hl⟩ := step_hs_prefix (exec St.new ops) op
+  refine ⟨l, hl, fresh_of_nodup _ l ?_⟩
+  rw [← hl]
+  have := C14_handles_distinct (ops ++ [op])
+  rw [exec_append] at this
+  exact this
 
 /-- **Queries are exact** (every filter built from `And/Or/In/NotIn/Equal`): a handed-out handle is
 returned once if its entity is living and its component set satisfies the filter, and not at all
@@ -195,6 +188,51 @@ theorem C14_data_isolated (ops : List Op) (h c h' c' : Nat) (v : Int) (hne : ¬ 
       · simp only [hh', if_false]
     · simp only [hc, Bool.false_eq_true, if_false]
   · simp only [hh, if_false]
+
+/-- … and **keeps what was written**: the answer to `read h c` is not changed by any operation that
+neither writes `(h, c)` nor annihilates `h` — spawns and annihilations of other entities (also ones
+that reuse storage rows or slots), writes to other cells, queries, registrations. -/
+theorem C14_data_kept (ops : List Op) (op : Op) (h c : Nat) (hh : h < (exec St.new ops).hs.length)
+    (hw : MV.Lemmas.ECSSpec.writes op h c = false) (hk : MV.Lemmas.ECSSpec.kills op h = false) :
+    (step (step (exec St.new ops) op).1 (.read h c)).2 = (step (exec St.new ops) (.read h c)).2 := by
+  have r := C14_represents ops
+  obtain ⟨r1, _⟩ := step_refines _ _ r op
+  obtain ⟨_, o2⟩ := step_refines _ _ r1 (.read h c)
+  obtain ⟨_, o3⟩ := step_refines _ _ r (.read h c)
+  simp only [MV.Spec.ECS.erase] at o2 o3
+  rw [o2, o3]
+  exact MV.Lemmas.ECSSpec.step_read _ op h c (by rw [r.clen, r.slots.len_eq]) (by rw [r.n_eq]; exact hh) hw hk
+
+/-! ## the set-level masks are what the word-level `DynamicBitSet` code computes -/
+
+/-- **Masks, word level**: every archetype mask of every reachable world is the image of a
+`DynamicBitSet` built by `Set` from `NewDynamicBitSet()` (no trailing zero words), and `query.go`'s
+`Evaluate`, transcribed on the `[]uint64` words of `MV.Model.BitSet` (`In`/`NotIn` masks started from
+the zero value, `Equal` masks from `NewDynamicBitSet()`), gives on it exactly the answer of the
+set-level `Filter.eval` the oracle executes — for every filter. -/
+theorem C14_eval_words (ops : List Op) (j : Nat) (hj : j < (exec St.new ops).w.arts.length) :
+    ∃ ids : List Nat,
+      MV.Lemmas.ECSWords.Rep 1 (ids.foldl MV.Model.BitSet.set MV.Model.BitSet.new) ((exec St.new ops).w.art j).mask ∧
+      ∀ f : Filter, MV.Lemmas.ECSWords.evalW (ids.foldl MV.Model.BitSet.set MV.Model.BitSet.new) f =
+        f.eval ((exec St.new ops).w.art j).mask := by
+  obtain ⟨ids, hids⟩ := (C14_represents ops).arch.built j hj
+  have hrep := MV.Lemmas.ECSWords.rep_setAll 1 ids _ _ MV.Lemmas.ECSWords.rep_new
+  rw [← hids] at hrep
+  exact ⟨ids, hrep, MV.Lemmas.ECSWords.evalW_eq _ _ hrep⟩
+
+/-- two archetype masks have the same word slice (hence the same `Key()` in the `masks` index) iff
+they are the same component set -/
+theorem C14_mask_key_faithful (ids ids' : List Nat) :
+    (ids.foldl MV.Model.BitSet.set MV.Model.BitSet.new).bits = (ids'.foldl MV.Model.BitSet.set MV.Model.BitSet.new).bits ↔
+      MV.Model.ECSMask.setAll [] ids = MV.Model.ECSMask.setAll [] ids' :=
+  MV.Lemmas.ECSWords.bits_eq_rep 1 _ _ _ _
+    (MV.Lemmas.ECSWords.rep_setAll 1 ids _ _ MV.Lemmas.ECSWords.rep_new)
+    (MV.Lemmas.ECSWords.rep_setAll 1 ids' _ _ MV.Lemmas.ECSWords.rep_new)
+
+/-- set-level filter evaluation on a canonical mask is satisfaction by the component set -/
+theorem C14_filter_semantics (m : MV.Model.ECSMask.Mask) (comps : List Nat) (hm : MV.Lemmas.ECSMask.Sorted m)
+    (hc : ∀ x, x ∈ m ↔ x ∈ comps) (f : Filter) : f.eval m = MV.Spec.ECS.sat comps f :=
+  MV.Lemmas.ECSMask.eval_sat m comps hm hc f
 
 /-! ## non-vacuity: concrete histories through every mechanism
 
